@@ -17,7 +17,7 @@ use crate::obs::guard;
 pub static DEF: PropDef = PropDef {
     id: "C17",
     level: "exploration",
-    rule: "each case: one hostile header — element type in {Binary, Utf8, UnsignedInt, raw tag (unknown id, tolerated), master} x declared size in {0, 1, M-1, M, M+1, 2M, 2^20, 2^32, 4*10^9, 4*10^9+1, 2^40, 2^56-2, random} encoded in a random vint width that can hold it x position {root, inside a known-size master (with and without oversize tolerance), inside an unknown-size master} x payload {absent, a few bytes, complete when small} x size limit M in {0, 5, 4096, 64 KiB, 1 MiB, default 4*10^9 (declared sizes <= 64 MiB only)} x initial capacity {16, 4096, 65536} x all 8 tolerance subsets — parsed by the real iterator (next() until the first error/None, then one try_recover() and next()). Around every API call the counting allocator measures peak live-heap growth and the largest single request on that thread; both must stay <= 16*max(B, capacity) + 64 KiB where, while the probed element is being handled, B = its declared size if within the limit, else 0, and afterwards (elements found in the random payload) B = M; an element declaring more than the limit must not be returned as an item nor reach its payload (the call must end in InvalidTagSize or an earlier check's error: InvalidTagId / HierarchyError / OversizedChildElement / InvalidTagData); no panic or arithmetic overflow (overflow checks are on). Every 20 000th case instead parses one long valid stream (6 MiB quick / 24 MiB thorough) of in-limit elements of varying size and measures the growth over the whole parse against the same bound (memory creep). distinct = (type, size class relative to M, width, position, limit, capacity, tolerance); non-trivial iff declared size > capacity.",
+    rule: "each case: one hostile header — element type in {Binary, Utf8, UnsignedInt, raw tag (unknown id, tolerated), master} x declared size in {0, 1, M-1, M, M+1, 2M, 2^20, 2^32, 4*10^9, 4*10^9+1, 2^40, 2^56-2, random} encoded in a random vint width that can hold it x position {root, inside a known-size master (with and without oversize tolerance), inside an unknown-size master} x payload {absent, a few bytes, complete when small} x size limit M in {0, 5, 4096, 64 KiB, 1 MiB, default 4*10^9 (declared sizes <= 64 MiB only)} x initial capacity {16, 4096, 65536} x all 8 tolerance subsets — parsed by the real iterator (next() until the first error/None, then one try_recover() and next()). Around every API call the counting allocator measures peak live-heap growth and the largest single request on that thread; both must stay <= 16*max(B, capacity) + 64 KiB where, while the probed element is being handled, B = its declared size if within the limit, else 0, and afterwards (elements found in the random payload) B = M; an element within the limit must not be rejected with the size error, an element declaring more than the limit must not be returned as an item nor reach its payload (the call must end in InvalidTagSize or an earlier check's error: InvalidTagId / HierarchyError / OversizedChildElement / InvalidTagData); no panic or arithmetic overflow (overflow checks are on). Every 20 000th case instead parses one long valid stream (6 MiB quick / 24 MiB thorough) of in-limit elements of varying size and measures the growth over the whole parse against the same bound (memory creep). distinct = (type, size class relative to M, width, position, limit, capacity, tolerance); non-trivial iff declared size > capacity.",
     assumptions: &["the constant 16 is deliberately loose (today's worst legitimate ratio is about 3: old buffer + grown buffer + the payload copy handed to the tag); the faults this property is about are off by 10^3-10^12", "with the limit removed (None) nothing is promised; not exercised", "default-limit acceptance is only exercised up to 64 MiB declared"],
     cases_quick: 800_000,
     cases_thorough: 8_000_000,
@@ -307,6 +307,11 @@ fn run(c: &mut Case) {
                 probe_done = true;
                 if first_err.is_none() && !recover {
                     c.count(&format!("rejected_{}", e.kind()));
+                    // within the limit: the size error must not be raised for this element
+                    if within && matches!(&e, ErrRec::InvalidTagSize { pos, .. } if *pos == elem_off) {
+                        c.violation(format!("C17/within-limit-rejected/{}", sigctx), format!("element declaring {} bytes was rejected with InvalidTagSize although the limit in force is {}", declared, m), wit("size error below the limit", J::Null));
+                        return;
+                    }
                     // over the limit: must be the size error or an earlier check, never an attempt at the payload
                     if !within && e.pos().map(|p| p == elem_off).unwrap_or(false) {
                         let ok = matches!(e, ErrRec::InvalidTagSize { .. } | ErrRec::InvalidTagId { .. } | ErrRec::OversizedChild { .. } | ErrRec::InvalidTagData { .. });
